@@ -45,6 +45,14 @@ def propose(rng, spec):
             q, v = rng.choice(T)
             return {'k': 'del_move', 'p': p, 'a': a, 'u': u, 'q': q, 'v': v}
         return {'k': 'lib', 'fn': rng.choice(['pda_to_one_accepting_state_in_place', 'pda_to_accept_on_empty_stack_in_place', 'pda_to_push_pop_in_place'])}
+    if k == 'cfg' and spec.get('cnf_only'):
+        nonstart = [v for v in spec['V'] if v != spec['S']]
+        r = rng.random()
+        if r < 0.4 and nonstart:
+            return {'k': 'add_rule', 'A': rng.choice(spec['V']), 'rhs': [[rng.choice(nonstart), 'V'], [rng.choice(nonstart), 'V']]}
+        if r < 0.7 and spec['Sigma']:
+            return {'k': 'add_rule', 'A': rng.choice(spec['V']), 'rhs': [[rng.choice(spec['Sigma']), 'T']]}
+        return {'k': 'del_rule', 'i': rng.randrange(len(spec['R']))} if spec['R'] else None
     if k == 'cfg':
         r = rng.random()
         if r < 0.35 and len(spec['V']) > 1:
